@@ -391,6 +391,25 @@ pub fn generate(ctx: &mut Ctx) {
             ctx.case("soup:rows", &format!("rows {}", vx::hex(&g)));
         }
     }
+    // number spellings: every exponent 0..45 and the overflow / underflow boundaries, each sign, integral and
+    // fractional mantissas, with and without a unit, alone and as a grid cell (a table-driven fast path of a number
+    // reader has its edges at particular exponents, not at particular lengths)
+    let mantissas: &[&str] = if ctx.quick() { &["1", "-7", "4", "1.5", "9007199254740993"] } else { &["1", "-7", "4", "1.5", "9007199254740993", "0", "-0", "12", "0.001", "123456789012345678901234567890", "9.999"] };
+    let mut exps: Vec<i32> = (0..=45).collect();
+    exps.extend_from_slice(&[99, 100, 290, 307, 308, 309, 310, 322, 323, 324, 325, 400, 1000]);
+    for m in mantissas {
+        for e in &exps {
+            for sign in ["", "+", "-"] {
+                for (letter, unit) in [("e", ""), ("E", "kW")] {
+                    let t = format!("{m}{letter}{sign}{e}{unit}");
+                    ctx.case("num:dec", &format!("dec {}", vx::hex(t.as_bytes())));
+                    if *e % 5 == 3 || *e > 45 {
+                        ctx.case("num:rows", &format!("rows {}", vx::hex(format!("ver:\"3.0\"\na,b\n{t},[{t}]\n").as_bytes())));
+                    }
+                }
+            }
+        }
+    }
     // nesting depth 1 .. 10^5 (Zinc: model + implementation; JSON: implementation)
     let depths: &[usize] = if ctx.quick() { &[1, 10, 63, 64, 65, 100, 1000, 100_000] } else { &[1, 2, 10, 32, 63, 64, 65, 66, 100, 128, 129, 1000, 10_000, 100_000] };
     for &d in depths {
